@@ -771,6 +771,9 @@ def replay_script(ctx, pid, data):
     if data.get("front") == "cli":
         from . import clifront
         return clifront.replay_script(ctx, data)
+    if data.get("front") == "context":
+        from . import ctxfront
+        return ctxfront.replay_script(ctx, data)
     uni = W.Universe(spelling=data.get("spelling", "int"))
     projects = tuple(data.get("projects", ["P"]))
     w = World2(uni, projects, base=ctx.work)
